@@ -17,6 +17,9 @@ from .. import tsparse
 from ..core import Violation, call
 
 TS = '2017-01-01T12:34:56.000Z'
+TS6 = '2017-01-01T12:34:56.123456Z'
+DT_ENTRY_POINTS = ('mem_store_ctor', 'mem_source_ctor', 'mem_sink_ctor', 'mem_store_add', 'mem_sink_add', 'env_add', 'mem_store_add_list',
+                   'mem_store_add_bundle', 'fs_sink_add', 'fs_store_add', 'fs_sink_add_list')
 ID_KINDS = ['v4', 'v4', 'v4', 'v1', 'v5', 'nonrfc', 'garbage']
 ENTRY_POINTS = ['parse_observable', 'mem_store_ctor', 'mem_source_ctor', 'mem_sink_ctor', 'mem_store_add', 'mem_sink_add',
                 'mem_source_load', 'mem_store_load', 'fs_sink_add', 'fs_store_add', 'fs_get', 'fs_all_versions', 'fs_query',
@@ -92,7 +95,7 @@ class C14(Profile):
     probes = ['named_version_differs_from_detected', 'nonrfc_id_rejected', 'uuidv1_id', 'accepted_object_checked',
               'rejected_by_both', 'dict_returned', 'roundtrip_checked', 'fs_entry', 'memory_entry', 'load_entry',
               'nonrfc_ref_rejected', 'fs_layout_flat', 'fs_layout_flat_in_versioned_dir', 'fs_layout_versioned',
-              'store_already_held_this_version', 'history_of_mixed_spec_versions_on_disk', 'bundlified_file_read_with_named_version']
+              'store_already_held_this_version', 'history_of_mixed_spec_versions_on_disk', 'bundlified_file_read_with_named_version', 'timestamps_as_values_of_a_2.1_object']
     rule = ('plans: 20-60 ops, each = (entry point among parse_observable, Memory{Store,Source,Sink} construction/add/load, '
             'FileSystem{Sink,Store}.add, FileSystem{Source,Store}.get/all_versions/query, Environment.add) x version in {None,2.0,2.1} x '
             'allow_custom x one of 23 inputs that separate the versions (differing required properties, spec_version present/absent, '
@@ -118,6 +121,12 @@ class C14(Profile):
             if ep in PRELOADABLE and rng.random() < 0.4:
                 # history: the store already holds this (id, modified) - put there under another version / spelling
                 op['pre'] = {'v': rng.choice([None, '2.0', '2.1']), 'respell': rng.random() < 0.3}
+            if rng.random() < 0.3 and 'pre' not in op and not key.startswith('marking'):
+                # (not together with a pre-loaded store: under another version the earlier copy is another version stamp; not for
+                # marking definitions: 2.0 markings keep or cut `created` depending on the form it is given in, by design)
+                op['ts6'] = True
+                if ep in DT_ENTRY_POINTS and rng.random() < 0.6:
+                    op['as_dt'] = True
             if ep == 'roundtrip':
                 op['v'] = None
                 op['rt_ver'] = rng.choice(['2.0', '2.1'])
@@ -174,7 +183,8 @@ class C14(Profile):
         """Returns (Outcome of the entry point, list of objects it yields or None when only acceptance is observable)."""
         s = self.stix2
         from stix2 import MemoryStore, MemorySource, MemorySink, FileSystemSink, FileSystemSource, FileSystemStore, Environment
-        cp = lambda: C._copy(d)
+        # (the input may hold datetime values, see as_dt: those are handed over as they are - a shallow copy of the dict)
+        cp = (lambda: dict(d)) if any(not isinstance(x, (str, int, float, bool, list, dict, type(None))) for x in d.values()) else (lambda: C._copy(d))
         if ep == 'parse_observable':
             o = call(s.parse_observable, cp(), allow_custom=a, version=v)
             return o, ([o.value] if o.ok else None)
@@ -325,7 +335,19 @@ class C14(Profile):
             return
         if ep.startswith('fs_') and op['idk'] == 'garbage':
             pass
+        if op.get('ts6'):
+            # instants below the millisecond (2.1 keeps them, 2.0 cuts them)
+            d = {k: (TS6 if x == TS else x) for k, x in d.items()}
         ref = None if is_sco_ep else call(s.parse, C._copy(d), allow_custom=a, version=v)
+        d_text = d
+        if op.get('as_dt') and ep in DT_ENTRY_POINTS:
+            # the same content with created / modified / valid_from as the datetime VALUES an existing 2.1 object holds (what a
+            # caller gets from obj.modified); the reference stays the direct parse of the text form
+            d = dict(d)
+            for k2 in ('created', 'modified', 'valid_from'):
+                if isinstance(d.get(k2), str):
+                    d[k2] = s.utils.parse_into_datetime(d[k2], precision='millisecond', precision_constraint='min')
+            world.probe('timestamps_as_values_of_a_2.1_object')
         self._cur_op = op
         if op.get('bundlified') and ep.startswith('fs_') and 'add' not in ep:
             # the stored content IS a bundle: the reference is the direct parse of that bundle under the same switches, its member
